@@ -17,7 +17,13 @@ Extracted (fail closed -- any shape not recognised raises TranslateError):
   * SCHEMA_NAME_PATTERN text, the file-name templates and join expression of load_schema_by_name, the
     search-path expressions of get_schema_search_paths in order;
   * resolve_hermetic_standard: prefix literal, regex text, digest prefix length, file suffix, lower();
-  * validate_source_uri: the ordered statement skeleton.
+  * validate_source_uri: the ordered statement skeleton; its resolution step as a mode the model consumes
+    (`paths_uri_resolution`: 0 resolve() alone, 1 + os.path.realpath of the result, 2 the helper `_resolve_without_links`)
+    and `paths_uri_catches_runtime`; for mode 2 the helper's body is required verbatim: the two-step resolution, a loop over
+    `(resolved, *resolved.parents)` raising OSError on `part.is_symlink()`, `return resolved`;
+  * _check_single_snapshot (check_staleness): the same for ITS resolution step (`paths_stale_resolution`,
+    `paths_stale_catches_runtime`), the order absolute-path refusal < resolution < `source_path.relative_to(effective_root)`
+    < compute_vocabulary_hash, and that neither function contains another resolution call.
 """
 import ast
 
@@ -46,6 +52,40 @@ FS_MODULES = ("os.", "tempfile.", "shutil.", "pathlib.", "io.", "glob.")
 # The two shapes of "is this component a symbolic link" the model knows, per receiver name, with the fact the
 # model CONSUMES: does the test first require `exists()` (stat, follows the link -> a dangling / ENOTDIR / >40-chain
 # link is not seen) or is it the lstat-based `is_symlink()` alone.  Any other test text fails closed.
+# resolution step of validate_source_uri / _check_single_snapshot: Path.resolve() alone (stops at a symlink loop and returns
+# the remaining components unresolved), or followed by os.path.realpath of the result; and which exceptions count as refusal
+# mode 0: Path.resolve() alone;  1: followed by os.path.realpath of the result (repo fix ea316ac);
+# 2: the helper _resolve_without_links (repo fix 3bf4eb7): realpath(resolve()) and then NO prefix of the result may be a link
+URI_RESOLVE_SHAPES = {
+    ("resolved = candidate.resolve()",): 0,
+    ("resolved = candidate.resolve()", "resolved = Path(os.path.realpath(resolved))"): 1,
+    ("resolved = _resolve_without_links(candidate)",): 2,
+}
+STALE_RESOLVE_SHAPES = {
+    ("candidate = base_path / source_uri", "source_path = candidate.resolve()"): 0,
+    ("candidate = base_path / source_uri", "source_path = candidate.resolve()", "source_path = Path(os.path.realpath(source_path))"): 1,
+    ("candidate = base_path / source_uri", "source_path = _resolve_without_links(candidate)"): 2,
+}
+
+
+def check_link_free_helper(hmod):
+    """_resolve_without_links must be exactly: two-step resolution, then a loop over the result AND all its parents that raises
+    OSError as soon as one of them is a symbolic link, then return."""
+    fn = find_def(hmod, "_resolve_without_links")
+    need([a.arg for a in fn.args.args] == ["candidate"], "_resolve_without_links: parameters")
+    body = _doc_skip(fn.body)
+    need(len(body) == 3, "_resolve_without_links: body length")
+    need(ast.unparse(body[0]) == "resolved = Path(os.path.realpath(candidate.resolve()))", "_resolve_without_links: resolution statement")
+    loop = body[1]
+    need(isinstance(loop, ast.For) and ast.unparse(loop.target) == "part" and ast.unparse(loop.iter) == "(resolved, *resolved.parents)"
+         and not loop.orelse and len(loop.body) == 1, "_resolve_without_links: loop must cover resolved and all its parents")
+    iff = loop.body[0]
+    need(isinstance(iff, ast.If) and ast.unparse(iff.test) == "part.is_symlink()" and not iff.orelse and len(iff.body) == 1
+         and isinstance(iff.body[0], ast.Raise) and isinstance(iff.body[0].exc, ast.Call)
+         and ast.unparse(iff.body[0].exc.func) == "OSError", "_resolve_without_links: a link must raise OSError")
+    need(ast.unparse(body[2]) == "return resolved", "_resolve_without_links: return")
+EXC_SHAPES = {"(OSError, ValueError)": False, "(OSError, ValueError, RuntimeError)": True}
+
 LINK_TESTS = {
     recv: {f"{recv}.is_symlink()": False, f"{recv}.exists() and {recv}.is_symlink()": True}
     for recv in ("current", "path_obj")
@@ -347,15 +387,58 @@ def extract(src):
             need(isinstance(st.body[-1], ast.Raise), "source uri: if without raise")
             sk.append("if " + ast.unparse(st.test) + ": raise")
         elif isinstance(st, ast.Try):
-            need(len(st.body) == 1, "source uri: try body")
+            body = [ast.unparse(b) for b in st.body]
             hs = ",".join(ast.unparse(h.type) for h in st.handlers)
-            need(all(isinstance(h.body[-1], ast.Raise) for h in st.handlers), "source uri: handler does not raise")
-            sk.append("try " + ast.unparse(st.body[0]) + " except " + hs + ": raise")
+            need(all(isinstance(h.body[-1], ast.Raise) for h in st.handlers) and not st.orelse and not st.finalbody,
+                 "source uri: handler does not raise")
+            if body and body[0].startswith("resolved = "):
+                # the resolution step: resolve() alone, or resolve() followed by os.path.realpath of its result
+                need(tuple(body) in URI_RESOLVE_SHAPES, f"source uri: resolution step is {body}")
+                need(hs in EXC_SHAPES, f"source uri: resolution handler catches {hs}")
+                need("uri_resolution" not in out, "source uri: two resolution steps")
+                out["uri_resolution"] = URI_RESOLVE_SHAPES[tuple(body)]
+                out["uri_catches_runtime"] = EXC_SHAPES[hs]
+            else:
+                need(len(st.body) == 1, "source uri: try body")
+            sk.append("try " + "; ".join(body) + " except " + hs + ": raise")
         elif isinstance(st, ast.Return):
             sk.append("return " + ast.unparse(st.value))
         else:
             raise TranslateError("validate_source_uri: unexpected statement")
     out["uri_skeleton"] = sk
+    need("uri_resolution" in out, "source uri: resolution step not found")
+    # ---- check_staleness: _check_single_snapshot has its OWN resolution + containment ----
+    css = find_def(hmod, "_check_single_snapshot")
+    hits = [n for n in ast.walk(css) if isinstance(n, ast.Try) and any(ast.unparse(b).startswith("source_path = ") for b in n.body)]
+    need(len(hits) == 1, f"_check_single_snapshot: expected one resolution step, found {len(hits)}")
+    t = hits[0]
+    body = tuple(ast.unparse(b) for b in t.body)
+    need(body in STALE_RESOLVE_SHAPES, f"_check_single_snapshot: resolution step is {list(body)}")
+    hs = ",".join(ast.unparse(h.type) for h in t.handlers)
+    need(hs in EXC_SHAPES and all(isinstance(h.body[-1], ast.Return) for h in t.handlers) and not t.orelse and not t.finalbody,
+         f"_check_single_snapshot: resolution handler {hs}")
+    out["stale_resolution"] = STALE_RESOLVE_SHAPES[body]
+    out["stale_catches_runtime"] = EXC_SHAPES[hs]
+    if 2 in (out["uri_resolution"], out["stale_resolution"]):
+        check_link_free_helper(hmod)
+    # no other resolution of a source path may hide in these two functions
+    for fn_ in (vsu, css):
+        n_res = sum(1 for n in ast.walk(fn_) if isinstance(n, ast.Call) and ast.unparse(n.func) in
+                    ("candidate.resolve", "os.path.realpath", "_resolve_without_links", "source_path.resolve", "resolved.resolve"))
+        need(n_res == {0: 1, 1: 2, 2: 1}[out["uri_resolution"] if fn_ is vsu else out["stale_resolution"]],
+             f"{fn_.name}: unexpected number of resolution calls ({n_res})")
+    texts = [ast.unparse(n) for n in ast.walk(css) if isinstance(n, (ast.Assign, ast.Expr, ast.If))]
+    need("effective_root = (allowed_root or base_path).resolve()" in texts, "_check_single_snapshot: effective_root")
+    cont = [n for n in ast.walk(css) if isinstance(n, ast.Try) and [ast.unparse(b) for b in n.body] == ["source_path.relative_to(effective_root)"]]
+    need(len(cont) == 1 and [ast.unparse(h.type) for h in cont[0].handlers] == ["ValueError"]
+         and isinstance(cont[0].handlers[0].body[-1], ast.Return), "_check_single_snapshot: containment check")
+    absif = [n for n in css.body if isinstance(n, ast.If) and ast.unparse(n.test) ==
+             "source_uri.startswith('/') or (len(source_uri) > 1 and source_uri[1] == ':')"]
+    need(len(absif) == 1 and isinstance(absif[0].body[-1], ast.Return), "_check_single_snapshot: absolute-path refusal")
+    # order: absolute refusal < resolution < containment < exists/hash
+    need(absif[0].lineno < t.lineno < cont[0].lineno, "_check_single_snapshot: order of the checks")
+    hashcalls = [n for n in ast.walk(css) if isinstance(n, ast.Call) and ast.unparse(n.func) == "compute_vocabulary_hash"]
+    need(len(hashcalls) == 1 and hashcalls[0].lineno > cont[0].lineno, "_check_single_snapshot: hash before containment")
     return out
 
 
@@ -393,4 +476,10 @@ def generate(src):
     o.append(f"Definition paths_frozen_len : N := {x['frozen_len']}.\n")
     o.append(f"Definition paths_frozen_suffix : list N := {coq_str(x['frozen_suffix'])}.\n")
     o.append(f"Definition paths_uri_skeleton : list (list N) :=\n  {coq_strlist(x['uri_skeleton'])}.\n")
+    o.append("(* resolution step: is Path.resolve() followed by os.path.realpath of its result? is RuntimeError (symlink loop) a refusal? *)\n")
+    o.append("(* resolution mode: 0 = Path.resolve() alone, 1 = + os.path.realpath of the result, 2 = _resolve_without_links (link-free result) *)\n")
+    for k in ("uri_resolution", "stale_resolution"):
+        o.append(f"Definition paths_{k} : N := {x[k]}.\n")
+    for k in ("uri_catches_runtime", "stale_catches_runtime"):
+        o.append(f"Definition paths_{k} : bool := {'true' if x[k] else 'false'}.\n")
     return {"PathsGen.v": "".join(o)}
